@@ -733,6 +733,8 @@ func (c *converter) addDefaultHostBackend(source *annotations.Source, fullSvcNam
 	match := hatypes.MatchBegin
 	if fr := c.haproxy.Hosts().FindHost(hostname); fr != nil {
 		if fr.FindPath(uri, match) != nil {
+			// the default host need to be updated if the current owner of the path leaves
+			c.tracker.TrackNames(source.Type, source.FullName(), convtypes.ResourceHAHostname, hostname)
 			return fmt.Errorf("path %s was already defined on default host", uri)
 		}
 	}
